@@ -24,7 +24,9 @@ static void cpu_model_init(void)
 {
     SYM_VAL(sym_max_leaf); SYM_VAL(sym_l1_ecx); SYM_VAL(sym_l1_edx); SYM_VAL(sym_l7_0_ebx); SYM_VAL(sym_l7_n_ebx); SYM_VAL(sym_xcr0);
     SYM_U32A(sym_ecx_garbage);
-    ASSUME(sym_max_leaf >= 1);                       /* every x86-64 CPU has basic leaf 1 */
+    /* every x86-64 CPU has basic leaf 1; basic leaves end below 0x80000000, where the extended range starts
+       (clang's <cpuid.h> returns the maximum leaf as a signed int) */
+    ASSUME(sym_max_leaf >= 1 && sym_max_leaf < 0x80000000u);
 }
 /* Intel SDM vol. 1 ch. 14.3 / vol. 2 CPUID: when may SSE2 / AVX2 instructions be executed */
 static int cpu_sse2_usable(void) { return (sym_l1_edx >> 26) & 1; }
